@@ -71,6 +71,7 @@ Definition dFault : dec fault :=
   | 2 => if a <=? 0 then fail else ret (FDelete (Z.to_pos a) b)
   | 3 => if a <=? 0 then fail else ret (FPatch (Z.to_pos a) b)
   | 4 => ret (FStatus a)
+  | 5 | 6 => ret (FPgWrite k)
   | _ => fail
   end.
 
@@ -91,14 +92,19 @@ Definition dOp : dec op :=
   | 7 => ret OSyncPods
   | 8 => ret OSyncPg
   | 9 => let* sp := dSpec in ret (OSetSpec sp)
+  | 10 => ret ORestart
+  | 11 => let* sp := dSpec in ret (OReplaceJob sp)
+  | 12 => ret OJobDeleting
   | _ => fail
   end.
 
-Record history := mkHistory { h_spec : spec; h_st : status; h_pods : list pod; h_pg : option pgphase; h_ops : list op }.
+Record history := mkHistory { h_spec : spec; h_st : status; h_pods : list pod; h_pg : option pgphase;
+                             h_queue : bool; h_ops : list op }.
 
 Definition dHistory : dec history :=
-  let* sp := dSpec in let* st := dStatus in let* pods := dPods in let* pg := dOpt dPgPhase in let* ops := dList dOp in
-  ret (mkHistory sp st pods pg ops).
+  let* sp := dSpec in let* st := dStatus in let* pods := dPods in let* pg := dOpt dPgPhase in
+  let* q := dBool in let* ops := dList dOp in
+  ret (mkHistory sp st pods pg q ops).
 
 (* what the harness observes after a step *)
 Definition eObs (k : Z) (x : world * bool * bool) : list Z :=
@@ -110,5 +116,5 @@ Fixpoint eTrace (k : Z) (l : list (world * bool * bool)) : list Z :=
   match l with [] => [] | x :: r => eObs k x ++ eTrace (k + 1) r end.
 
 Definition run_history (h : history) : list Z :=
-  let w := init_world (h_spec h) (h_st h) (h_pods h) (h_pg h) in
+  let w := init_world_q (h_queue h) (h_spec h) (h_st h) (h_pods h) (h_pg h) in
   eTrace 1 ((w, false, false) :: trace w (h_ops h)).
